@@ -763,7 +763,15 @@ fn public_route_tz(bytes: Option<&Arc<Vec<u8>>>, tz: &str, z: Option<&Zone>, rng
     for ((api, t), g) in probes.iter().zip(got) {
         let want = answer(z, *api, *t);
         if let Res::Err(_) = want {
-            continue; // not representable through the public API (e.g. |offset| >= 24 h)
+            // the zone's answer is not representable through the public API (|offset| >= 24 h):
+            // no particular answer is demanded, but an accepted zone must not make Local panic
+            if let Res::Panic(p) = &g {
+                return Ok(Some(format!(
+                    "PANIC {:?}(t={}) via TZ={:?}: the zone is accepted and answers {:?} at reader level, but Local panicked: {}",
+                    api, t, tz, z.offset_at(*t).map(|x| x.0), p
+                )));
+            }
+            continue;
         }
         if g != want {
             return Ok(Some(format!(
@@ -780,6 +788,19 @@ fn public_route_tz(bytes: Option<&Arc<Vec<u8>>>, tz: &str, z: Option<&Zone>, rng
         }
     }
     Ok(None)
+}
+
+/// Class of a public-route problem: a panic is named after the file it happened in (line numbers
+/// move with unrelated edits), anything else is a wrong answer.
+fn public_class(detail: &str) -> String {
+    if detail.starts_with("PANIC") {
+        let loc = panic_loc(detail);
+        let file = loc.rsplit_once(':').map(|x| x.0).unwrap_or(&loc).to_string();
+        let msg = detail.rsplit("Local panicked: ").next().unwrap_or("").split(" @ ").next().unwrap_or("");
+        format!("public-route-panic:{}:{}", file, msg)
+    } else {
+        "public-route-differs".to_string()
+    }
 }
 
 // ---------------------------------------------------------------- shards
@@ -883,7 +904,7 @@ pub fn shard(part: Part, seed: u64, tier: &str, from: u64, to: u64, out: &str) -
                         match public_route(&arc, Some(&z), &mut rng, &mut sink.sh.fired) {
                             Ok(None) => {}
                             Ok(Some(d)) => sink.problem(Problem {
-                                class: "public-route-differs".into(),
+                                class: public_class(&d),
                                 detail: d,
                                 input: Input { mode: "tzif".into(), hex: hex(&bytes), expect: Expect::Accept, expected_debug: None, what: what.clone() },
                             }),
@@ -949,7 +970,7 @@ pub fn shard(part: Part, seed: u64, tier: &str, from: u64, to: u64, out: &str) -
                             let input = Input { mode: "tzif".into(), hex: hex(&fb), expect: Expect::Survive, expected_debug: None, what: fwhat.clone() };
                             match public_route(&arc, z.as_ref(), &mut rng, &mut sink.sh.fired) {
                                 Ok(None) => {}
-                                Ok(Some(d)) => sink.problem(Problem { class: "public-route-differs".into(), detail: d, input }),
+                                Ok(Some(d)) => sink.problem(Problem { class: public_class(&d), detail: d, input }),
                                 Err(e) => sink.problem(Problem { class: "public-route-hang".into(), detail: e, input }),
                             }
                         }
@@ -1049,14 +1070,13 @@ pub fn shard(part: Part, seed: u64, tier: &str, from: u64, to: u64, out: &str) -
                                 && text != "localtime";
                             if plain {
                                 let z = guarded(|| Zone::from_posix_rule(text.as_bytes(), false)).ok().and_then(|r| r.ok());
-                                let offs_ok = z.as_ref().map_or(true, |z| debug_numbers(z).1.iter().all(|o| o.abs() < 86_400));
-                                if offs_ok {
+                                {
                                     sink.sh.tally.public_route_checks += 1;
                                     *sink.sh.fired.entry("public_route_on_tz_string".into()).or_insert(0) += 1;
                                     let input = Input { mode: "tzstr".into(), hex: hex(&b), expect: Expect::Survive, expected_debug: None, what: swhat.clone() };
                                     match public_route_tz(None, text, z.as_ref(), &mut rng, &mut sink.sh.fired) {
                                         Ok(None) => {}
-                                        Ok(Some(d)) => sink.problem(Problem { class: "public-route-differs".into(), detail: d, input }),
+                                        Ok(Some(d)) => sink.problem(Problem { class: public_class(&d), detail: d, input }),
                                         Err(e) => sink.problem(Problem { class: "public-route-hang".into(), detail: e, input }),
                                     }
                                 }
@@ -1211,7 +1231,7 @@ pub fn run(opts: &Opts, only: Option<Part>) -> i32 {
         let mode = f.replay["input"]["mode"].as_str().unwrap_or("tzif").to_string();
         let expect = f.replay["input"]["expect"].as_str().unwrap_or("").to_string();
         let original = unhex(f.replay["input"]["hex"].as_str().unwrap_or("")).unwrap_or_default();
-        if expect == "Survive" && class != "hang" && !original.is_empty() {
+        if expect == "Survive" && class != "hang" && !class.starts_with("public-route") && !original.is_empty() {
             let (min, used) = shrink_survive(&mode, &original, &class, 4000);
             f.replay["original_bytes"] = json!(original.len());
             f.replay["minimise_executions"] = json!(used);
@@ -1455,6 +1475,39 @@ pub fn replay(v: &Value) -> i32 {
                 std::process::exit(1);
             }
         };
+    }
+    if class.starts_with("public-route") {
+        // problems seen through Local: put the input behind TZ again (several probe sets)
+        println!("input ({} bytes, {}): {}", bytes.len(), input.mode, input.what);
+        let z = guarded(|| parse_input(if input.mode == "tzif" { "tzif" } else { "tzstr" }, &bytes)).ok().and_then(|r| r.ok());
+        let mut fired = BTreeMap::new();
+        for k in 0..40u64 {
+            let mut rng = Rng::new(crate::rng::derive(v["seed"].as_u64().unwrap_or(0), 1698, k));
+            let r = if input.mode == "tzif" {
+                public_route(&Arc::new(bytes.clone()), z.as_ref(), &mut rng, &mut fired)
+            } else {
+                public_route_tz(None, &String::from_utf8_lossy(&bytes), z.as_ref(), &mut rng, &mut fired)
+            };
+            match r {
+                Ok(None) => {}
+                Ok(Some(d)) => {
+                    let c = public_class(&d);
+                    println!("{} :: {}", c, d);
+                    if c == class {
+                        println!("VIOLATION property=C16 replay=<this file>");
+                    } else {
+                        println!("a different problem than the recorded one ({})", class);
+                    }
+                    return 1;
+                }
+                Err(e) => {
+                    println!("public-route-hang :: {}", e);
+                    return 1;
+                }
+            }
+        }
+        println!("not reproduced");
+        return 0;
     }
     let mut rng = Rng::new(crate::rng::derive(v["seed"].as_u64().unwrap_or(0), 1699, v["case"].as_u64().unwrap_or(0)));
     let mut t = Tally::default();
